@@ -248,7 +248,8 @@ class simplify_chained_calls(FuncADLNodeTransformer):
         new_select = function_call("SelectMany", [captured_body, func_g])
         new_select_lambda = lambda_build(captured_arg, new_select)
         new_select_many = function_call("SelectMany", [seq, new_select_lambda])
-        return new_select_many
+        # `func_g` has not been looked at yet
+        return self.visit(new_select_many)
 
     def call_SelectMany(self, node: ast.Call, args: List[ast.AST]):
         r"""
